@@ -276,19 +276,19 @@ theorem matchP_eofTok {D : List Dialect} {cap : Nat} {stop : Bool} {K : Kind} {t
 def EffM {α} (cap : Nat) (m : PM α) : Prop := ∀ c r c', run m c = (r, c') → Eff cap c r c'
 
 theorem EffM.pure {α} {cap : Nat} (a : α) : EffM cap (Pure.pure a : PM α) := by
-  intro c r c' h; rw [run_pure] at h; cases h; exact Eff.ok_refl _ _
+  intro c r c' h; rw [prun_pure] at h; cases h; exact Eff.ok_refl _ _
 
 theorem EffM.crash {α} {cap : Nat} (w : String) : EffM cap (throw (.crash w) : PM α) := by
-  intro c r c' h; rw [run_throw] at h; cases h
+  intro c r c' h; rw [prun_throw] at h; cases h
   exact ⟨Grow.refl _, fun a ha => by cases ha; exact .inr (.inl ⟨_, rfl⟩)⟩
 
 theorem EffM.fuel {α} {cap : Nat} : EffM cap (throw .fuel : PM α) := by
-  intro c r c' h; rw [run_throw] at h; cases h
+  intro c r c' h; rw [prun_throw] at h; cases h
   exact ⟨Grow.refl _, fun a ha => by cases ha; exact .inr (.inr rfl)⟩
 
 theorem EffM.bind {α β} {cap : Nat} {m : PM α} {f : α → PM β} (h1 : EffM cap m) (h2 : ∀ a, EffM cap (f a)) : EffM cap (m >>= f) := by
   intro c r c' h
-  rw [run_bind] at h
+  rw [prun_bind] at h
   rcases hr : run m c with ⟨r1, c1⟩
   rw [hr] at h
   have e1 := h1 c r1 c1 hr
@@ -300,7 +300,7 @@ theorem EffM.bind {α β} {cap : Nat} {m : PM α} {f : α → PM β} (h1 : EffM 
 
 theorem EffM.get_bind {β} {cap : Nat} {f : Ctx → PM β} (h : ∀ x, EffM cap (f x)) : EffM cap (get >>= f) := by
   intro c r c' hr
-  rw [run_bind, run_get] at hr
+  rw [prun_bind, run_get] at hr
   exact h c c r c' hr
 
 theorem EffM.modify {cap : Nat} (f : Ctx → Ctx) (hf : ∀ c, (f c).errors = c.errors) : EffM cap (modify f : PM PUnit) := by
@@ -477,9 +477,9 @@ theorem matchAny_eofTok {D : List Dialect} {cap : Nat} {stop : Bool} (ks : List 
     (h : run (matchAny D cap stop ks t) c = (r, c')) :
     FootM c c' ∧ c'.μ = c.μ ∧ c'.errors = c.errors ∧ ∃ t', r = .ok (false, t') ∧ t'.line = none := by
   induction ks generalizing t c with
-  | nil => rw [GV.matchAny, run_pure] at h; cases h; exact ⟨FootM.refl _, rfl, rfl, _, rfl, hl⟩
+  | nil => rw [GV.matchAny, prun_pure] at h; cases h; exact ⟨FootM.refl _, rfl, rfl, _, rfl, hl⟩
   | cons k ks ih =>
-    rw [GV.matchAny, run_bind] at h
+    rw [GV.matchAny, prun_bind] at h
     rcases hr : run (matchP D cap stop k t) c with ⟨r1, c1⟩
     rw [hr] at h
     obtain ⟨hf, hμ, he, t1, rfl, hl1⟩ := matchP_eofTok hl hr
@@ -503,14 +503,14 @@ theorem matchAny_text {D : List Dialect} {cap : Nat} (ks : List Kind) {t : Token
   induction ks generalizing t c with
   | nil =>
     intro _
-    rw [GV.matchAny, run_pure] at h
+    rw [GV.matchAny, prun_pure] at h
     cases h
     exact ⟨FootM.refl _, rfl, (fun m t' he => by cases he; exact ⟨rfl, hl⟩), .inl ⟨rfl, _, rfl⟩⟩
   | cons k ks ih =>
     intro hst
     have hk := hst k (List.mem_cons_self ..)
     have hst' : ∀ K ∈ ks, stableKind K = true := fun K hK => hst K (List.mem_cons_of_mem _ hK)
-    rw [GV.matchAny, run_bind] at h
+    rw [GV.matchAny, prun_bind] at h
     rcases hr : run (matchP D cap false k t) c with ⟨r1, c1⟩
     rw [hr] at h
     obtain ⟨hf, heff, hyes, hno⟩ := matchP_text hl hr
@@ -519,7 +519,7 @@ theorem matchAny_text {D : List Dialect} {cap : Nat} (ks : List Kind) {t : Token
       obtain ⟨hμ1, he1, t1, rfl, hl1⟩ := hyes hv
       dsimp only at h
       simp only [if_true] at h
-      rw [run_pure] at h
+      rw [prun_pure] at h
       cases h
       refine ⟨hf, ?_, fun m t' he => ?_, .inl ⟨he1, _, rfl⟩⟩
       · rw [hμ1]; exact muAfter_stable D c.μ l k hk
@@ -661,18 +661,18 @@ theorem peek_text {D : List Dialect} {T : Table} (hf : textDialectFacts D = true
   induction ls with
   | nil =>
     intro n c _ r c' h
-    rw [peekLoop, run_bind] at h
+    rw [peekLoop, prun_bind] at h
     rcases hr1 : run (matchAny D cap false la.expected { line := none, lineNo := n }) c with ⟨r1, c1⟩
     rw [hr1] at h
     obtain ⟨hf1, hμ1, he1, t1, rfl, hl1⟩ := matchAny_eofTok la.expected (hnoE _ hexpS) rfl hr1
     dsimp only at h
     simp only [Bool.false_eq_true, if_false] at h
-    rw [run_bind] at h
+    rw [prun_bind] at h
     rcases hr2 : run (matchAny D cap false la.skip t1) c1 with ⟨r2, c2⟩
     rw [hr2] at h
     obtain ⟨hf2, hμ2, he2, t2, rfl, -⟩ := matchAny_eofTok la.skip (hnoE _ hskS) hl1 hr2
     dsimp only at h
-    rw [run_pure] at h
+    rw [prun_pure] at h
     cases h
     refine ⟨hf1.trans hf2, hμ2.trans hμ1, fun b hb => ?_, fun hc => .inl ?_⟩
     · cases hb
@@ -681,7 +681,7 @@ theorem peek_text {D : List Dialect} {T : Table} (hf : textDialectFacts D = true
     · intro e he; rw [he2, he1] at he; exact hc e he
   | cons l ls ih =>
     intro n c hμ r c' h
-    rw [peekLoop, run_bind] at h
+    rw [peekLoop, prun_bind] at h
     rcases hr1 : run (matchAny D cap false la.expected { line := some l, lineNo := n }) c with ⟨r1, c1⟩
     rw [hr1] at h
     obtain ⟨hf1, hμ1, hv1, hc1⟩ := matchAny_text la.expected (t := { line := some l, lineNo := n }) rfl hr1 hexpS
@@ -699,7 +699,7 @@ theorem peek_text {D : List Dialect} {T : Table} (hf : textDialectFacts D = true
     dsimp only at h
     split at h
     · rename_i hm
-      rw [run_pure] at h
+      rw [prun_pure] at h
       cases h
       refine ⟨hf1, hμ1, fun b hb => ?_, fun hc => .inl ?_⟩
       · cases hb
@@ -707,7 +707,7 @@ theorem peek_text {D : List Dialect} {T : Table} (hf : textDialectFacts D = true
       · intro e he; rw [he1] at he; exact hc e he
     · rename_i hm
       have hm' : la.expected.any (passes (intrinsicKind D c.μ l)) = false := by rw [← hm1]; simpa using hm
-      rw [run_bind] at h
+      rw [prun_bind] at h
       rcases hr2 : run (matchAny D cap false la.skip t1) c1 with ⟨r2, c2⟩
       rw [hr2] at h
       obtain ⟨hf2, hμ2, hv2, hc2⟩ := matchAny_text la.skip hl1 hr2 hskS
@@ -759,7 +759,7 @@ theorem peek_text {D : List Dialect} {T : Table} (hf : textDialectFacts D = true
                 doomed_raise hf F c.μ hμ l ls hz⟩
         · rename_i hst
           have hs' : la.skip.any (passes (intrinsicKind D c.μ l)) = false := by rw [← hs]; simpa using hst
-          rw [run_pure] at h
+          rw [prun_pure] at h
           cases h
           refine ⟨hf1.trans hf2, hμc2, fun b hb => ?_, fun hc => ?_⟩
           · cases hb
